@@ -89,6 +89,20 @@ def materialise_rule(ctx, res, rule, entry_fn):
         ok = (e["allow_unused"] is True and any(set(c["like"] or []) <= set(inp) and c["like"] for c in later)) or e.get("materialize_grads") is True
         ctx.require(ok, rule, k, "allow_unused=True and missing gradients replaced by zeros_like(input)",
                     f"allow_unused={e['allow_unused']}; zeros materialisation after the call: {[c['like'] for c in later][:2]}", e["loc"])
+        # where the gradients are flattened and laid end to end (one row of the Jacobian), the zeros standing in for a missing gradient are flattened
+        # too: zeros_like(input) created AFTER the flattening keeps the input's own shape and cannot be concatenated with vectors
+        nxt_ag = min([a["seq"] for a in ag if a["seq"] > e["seq"]] or [10 ** 9])
+        packs = [p_ for p_ in _pipe.evs(res, "pack") if e["seq"] < p_["seq"] < nxt_ag and p_["fn"] in ("concatenate", "cat", "hstack") and (p_.get("dim") or 0) == 0 and _pipe.in_stage(p_)]
+        for c in [c for c in later if c["fn"] == "zeros_like" and c["seq"] < nxt_ag]:
+            p_ = next((p_ for p_ in packs if p_["seq"] > c["seq"]), None)
+            if p_ is None:
+                continue
+            flat_before = [r_ for r_ in _pipe.evs(res, "reshape") if e["seq"] <= r_.get("seq", -1) <= c["seq"] and r_["shape"] == ["-1"] and "autograd" in (r_.get("origin") or [])]
+            flat_after = [r_ for r_ in _pipe.evs(res, "reshape") if c["seq"] <= r_.get("seq", -1) <= p_["seq"] and r_["shape"] == ["-1"]]
+            if flat_before and not flat_after:
+                ctx.violated(rule, f"{_layout.short_fn(c)}: zeros for a missing gradient are flattened like the gradients", f"`{c['text'][:60]}` is created after the gradients were flattened "
+                             f"(`{flat_before[0]['text'][:40]}`) and goes into `{p_['text'][:50]}` with the input's own shape: for an unreachable input that is not 1-d the concatenation raises "
+                             "instead of yielding zero columns", c["loc"])
 
 
 def idiom_rules(ctx, index, rule):
